@@ -41,6 +41,31 @@ pub fn call_graph_shapes(rng: &mut Rng) -> Vec<Shape> {
         p.push(Ins::ret());
         v.push(Shape { name: "several-labels-one-entry", prog: p });
     }
+    // a function whose instructions stand in the data segment (a forgotten `.text`): it is a call
+    // target all the same
+    {
+        let mut p = Program::default();
+        p.label("main");
+        p.push(Ins::li(A0, k));
+        p.push(Ins::call("in_data"));
+        if rng.chance(0.5) {
+            p.push(Ins::call("in_text"));
+        }
+        exit(&mut p);
+        p.lines.push(Line::SecData);
+        p.label("table");
+        p.lines.push(Line::Data(Data::Word(vec![1, 2, 3])));
+        p.label("in_data");
+        p.push(Ins::addi(A0, A0, 1));
+        p.push(Ins::ret());
+        if rng.chance(0.6) {
+            p.lines.push(Line::SecText);
+        }
+        p.label("in_text");
+        p.push(Ins::addi(A0, A0, 2));
+        p.push(Ins::ret());
+        v.push(Shape { name: "function-in-the-data-segment", prog: p });
+    }
     // interleaved bodies: f continues behind g
     {
         let mut p = Program::default();
